@@ -22,9 +22,10 @@ by the explicit hypotheses `noRmrf t` / `c.parseOk = true`: a failing build runn
 succeeding one of the same key can delete the other's files; with a deterministic parser both fail alike.
 -/
 import OccaProofs.Lemmas.BuildFSSched
+import OccaProofs.Lemmas.BuildFSExamples
 
 namespace Occa.BuildFS.C09
-open Occa Occa.BuildFS
+open Occa Occa.BuildFS Occa.BuildFS.Examples
 
 /-- Any number of processes, any interleaving `t` of their steps that obeys the discipline: after every
     prefix all final-named files are complete and correct, and every step that opens a final name sees
@@ -56,48 +57,6 @@ theorem C09_interleaving_of_accepted (S : Spec) (hS : S.Coherent) (fs0 : FS) (t 
   have ha : accepts S t = true :=
     accepts_interleave t AS.empty (fun i => by rw [proj_empty]; exact hloc i) hdis
   exact ⟨ha, (C09_interleaving_good S hS fs0 t hG ha hf).1⟩
-
-/-- one accepted step other than `rmrf` never removes a final-named file -/
-theorem step_keeps_finals (S : Spec) (st st' : AS) (e : Ev) (fs : FS) (ha : acceptStep S st e = some st')
-    (hr : (match e.op with | .rmrf _ => false | _ => true) = true) (p : Path) (hp : p.tmp = none)
-    (h : fs.present p = true) : (applyOp S fs e.op).present p = true := by
-  obtain ⟨pid, op, res⟩ := e
-  cases op with
-  | rmrf d => cases hr
-  | statDir d => exact h
-  | mkdir d => exact h
-  | fsync q => exact h
-  | fsyncDir d => exact h
-  | stat q => exact h
-  | openRead q => exact h
-  | run q => exact h
-  | creat q => exact present_creat fs q p (Or.inl h)
-  | append q bs => exact present_append fs q p bs h
-  | close q => exact present_close fs q p h
-  | rename a b =>
-    simp only [acceptStep] at ha
-    split at ha
-    · rename_i hc
-      simp only [Bool.and_eq_true, Bool.not_eq_true', decide_eq_true_eq] at hc
-      have hat : a.isTemp = true := hc.1.1
-      have hne : p ≠ a := ne_of_temp_final hat hp
-      simp only [applyOp]
-      cases hfa : fs.files a with
-      | none => exact h
-      | some f =>
-        simp only
-        rw [present_setFile]
-        simp only [hne, if_false, present_setFile]
-        split
-        · rfl
-        · exact h
-    · cases ha
-  | exec src outs =>
-    simp only [applyOp]
-    cases hfs : fs.files src with
-    | none => exact h
-    | some f =>
-      exact foldl_setFile_present (fun o => some ⟨S.compile o.base f.bytes, true⟩) (fun _ => rfl) outs fs p (Or.inr h)
 
 /-- Without the rmrf-on-failure path nothing that has been published disappears again: a final-named file
     present at some point of an accepted interleaving is present ever after. -/
@@ -200,74 +159,16 @@ theorem C09_reuse_after_schedule (S : Spec) (hS : S.Coherent) (cfgs : Nat → Co
 
 /-! ### the hypotheses are satisfiable by a non-trivial value -/
 
-/-- two processes whose steps alternate, each staging its own temp file for the same final name -/
-def exSpec : Spec where
-  valid := fun _ bs => bs == [1]
-  compile := fun _ _ => [1]
-  recipe := fun _ => none
-
-def fin : Path := ⟨"K", none, "build.json"⟩
-def ta : Path := ⟨"K", some "aaaa", "build.json"⟩
-def tb : Path := ⟨"K", some "bbbb", "build.json"⟩
-
-def exTrace : Trace :=
-  [⟨1, .creat ta, true⟩, ⟨2, .creat tb, true⟩, ⟨1, .append ta [1], true⟩, ⟨2, .append tb [1], true⟩,
-   ⟨2, .close tb, true⟩, ⟨1, .close ta, true⟩, ⟨2, .rename tb fin, true⟩, ⟨1, .openRead fin, true⟩,
-   ⟨1, .rename ta fin, true⟩, ⟨2, .openRead fin, true⟩]
-
-example : accepts exSpec exTrace = true := by decide
+example : accepts exSpec9 exTrace = true := by decide
 example : noRmrf exTrace = true := by decide
-example : accepts exSpec (exTrace.filter (fun x => x.pid == 1)) = true := by decide
-example : accepts exSpec (exTrace.filter (fun x => x.pid == 2)) = true := by decide
+example : accepts exSpec9 (exTrace.filter (fun x => x.pid == 1)) = true := by decide
+example : accepts exSpec9 (exTrace.filter (fun x => x.pid == 2)) = true := by decide
 /-- the same steps with process 2 writing straight to the final name are rejected -/
-example : accepts exSpec [⟨1, .creat ta, true⟩, ⟨2, .creat fin, true⟩] = false := by decide
+example : accepts exSpec9 [⟨1, .creat ta, true⟩, ⟨2, .creat fin, true⟩] = false := by decide
 /-- and so is touching the other process's temp name -/
-example : accepts exSpec [⟨1, .creat ta, true⟩, ⟨2, .append ta [1], true⟩] = false := by decide
+example : accepts exSpec9 [⟨1, .creat ta, true⟩, ⟨2, .append ta [1], true⟩] = false := by decide
 
 /-! any number of processes building the same OpenMP kernel from a string, any schedule -/
-
-def mkTok (i n : Nat) : String := String.ofList (List.replicate i 'b' ++ 'c' :: List.replicate n 'a')
-
-theorem mkTok_inj (i j n m : Nat) (h : mkTok i n = mkTok j m) : i = j ∧ n = m := by
-  have hl : (List.replicate i 'b' ++ 'c' :: List.replicate n 'a') = (List.replicate j 'b' ++ 'c' :: List.replicate m 'a') := by
-    have := congrArg String.toList h
-    simpa [mkTok] using this
-  have h1 := congrArg (List.count 'b') hl
-  have h2 := congrArg List.length hl
-  simp [List.count_append, List.count_replicate, List.count_cons] at h1
-  simp at h2
-  omega
-
-def spec2 : Spec where
-  valid := fun p bs => if p.base = "binary" ∨ p.base = "build.log" then bs == [9] else bs == [1]
-  compile := fun _ _ => [9]
-  recipe := fun p =>
-    if p.base = "binary" ∨ p.base = "build.log" then
-      some (if p.dir = "V" then "findCompilerVendor.cpp" else if p.dir = "O" then "compilerSupportsOpenMP.cpp" else "k.source.cpp")
-    else none
-
-theorem spec2_coherent : spec2.Coherent := by
-  intro src out s _ hr _ _
-  simp only [spec2, Path.final] at hr ⊢
-  split at hr
-  · rename_i h; simp [h]
-  · cases hr
-
-/-- every process builds the SAME kernel (same directories), OpenMP, from a string; process i's tokens are mkTok i _ -/
-def cfgsEx (i : Nat) : Config :=
-  { openmp := true, fromString := true, silent := false, parseOk := true, kdir := "K", vdir := "V", odir := "O",
-    rawBase := "k.raw_source.cpp", cppBase := "k.source.cpp", str := [1], raw := [1], cpp := [1], json := [1],
-    vsrc := [1], vout := [1], osrc := [1], oout := [1], ooutNA := [1], toks := mkTok i }
-
-theorem cfgsEx_ok (i : Nat) : CfgOK spec2 (cfgsEx i) :=
-  { toks_inj := fun a b h => (mkTok_inj i i a b h).2, v_str := by simp [cfgsEx, Config.k, Config.v, Config.o, spec2], v_raw := by simp [cfgsEx, Config.k, Config.v, Config.o, spec2], v_cpp := by simp [cfgsEx, Config.k, Config.v, Config.o, spec2], v_json := by simp [cfgsEx, Config.k, Config.v, Config.o, spec2],
-    v_vsrc := by simp [cfgsEx, Config.k, Config.v, Config.o, spec2], v_vout := by simp [cfgsEx, Config.k, Config.v, Config.o, spec2], v_osrc := by simp [cfgsEx, Config.k, Config.v, Config.o, spec2], v_oout := by simp [cfgsEx, Config.k, Config.v, Config.o, spec2], v_ooutNA := by simp [cfgsEx, Config.k, Config.v, Config.o, spec2],
-    r_kbin := by simp [cfgsEx, Config.k, Config.v, Config.o, spec2], r_vbin := by simp [cfgsEx, Config.k, Config.v, Config.o, spec2], r_vlog := by simp [cfgsEx, Config.k, Config.v, Config.o, spec2], r_obin := by simp [cfgsEx, Config.k, Config.v, Config.o, spec2] }
-
-theorem cfgsEx_disj : ∀ i j, i ≠ j → ∀ x, IsTok (cfgsEx i) x → ¬ IsTok (cfgsEx j) x := by
-  intro i j hij x ⟨a, ha⟩ ⟨b, hb⟩
-  rw [ha] at hb
-  exact hij (mkTok_inj i j a b (Option.some.inj hb)).1
 
 example (sch : List Nat) :
     accepts spec2 (runSched spec2 sch (fun i => buildProg (cfgsEx i)) FS.empty).2.2 = true ∧
